@@ -905,6 +905,27 @@ def m_str_into_string(c):
     return deref(c.st, c.args[0])
 
 
+@pattern(r'^<impl Into as Into<(String|std::string::String)>>::into$')
+def m_generic_into_string(c):
+    # `impl Into<String>` parameter in generic MIR: the only instantiations modelled are the string-like ones
+    v = deref(c.st, c.args[0])
+    if isinstance(v, Str):
+        return v
+    raise Unsupported('Into<String> of ' + type(v).__name__)
+
+
+@model('core::str::starts_with', 'str::starts_with', 'core::str::ends_with', 'str::ends_with')
+def m_str_starts_with(c):
+    s_ = deref(c.st, c.args[0])
+    pat = c.args[1]
+    pat = deref(c.st, pat) if isinstance(pat, Ptr) else pat
+    if isinstance(pat, Int) and z3.is_bv_value(z3.simplify(pat.v)):
+        pat = Str(text=chr(z3.simplify(pat.v).as_long()))
+    if isinstance(s_, Str) and s_.text is not None and isinstance(pat, Str) and pat.text is not None:
+        return z3.BoolVal(s_.text.startswith(pat.text) if c.canon.endswith('starts_with') else s_.text.endswith(pat.text))
+    raise Unsupported('starts_with / ends_with on a string that is not a literal')
+
+
 @model('String::new', 'std::string::String::new')
 def m_string_new(c):
     return Str(text='')
